@@ -135,6 +135,8 @@ APPLY_TEMPLATES = [
     [101002, 48001],
     [12001, 348003, 2001],
     [202129, 48001, 12001, 202000],
+    [348002, 48001, 348002, 1004, 2001],       # the replication-only sequence used twice in one template
+    [348004, 12001],                            # ... and twice inside another defined sequence
 ]
 UNITS = ['K', 'CODE TABLE', 'FLAG TABLE', 'NUMERIC']
 SCALES = [0, 1, -1, 2]
@@ -150,7 +152,8 @@ def h_apply(ctx):
     unit = UNITS[ctx.choice('unit', len(UNITS))]
     ids = APPLY_TEMPLATES[p['template']] if 'template' in p else APPLY_TEMPLATES[ctx.choice('template', len(APPLY_TEMPLATES))]
     b_entries = {'048001': ['NEW ELEMENT', unit, scale, ref, w, '', 0, 0]}
-    d_members = {'348001': ['048001', '001004'], '348002': ['101000', '031001'], '348003': ['348001', '102002', '048001', '002001']}
+    d_members = {'348001': ['048001', '001004'], '348002': ['101000', '031001'], '348003': ['348001', '102002', '048001', '002001'],
+                 '348004': ['048001', '348002', '001004', '348002', '002001', '001004']}
     d_entries = {k: ['NEW SEQUENCE', list(v)] for k, v in d_members.items()}
     TableGroupCacheManager.invalidate()
     TableGroupCacheManager.add_extra_entries(b_entries, d_entries)
